@@ -56,6 +56,8 @@ STATS_TAIL = ("SPECIFICATION SpecStats\nINVARIANT TypeOK\nINVARIANT WholeSample\
               "CHECK_DEADLOCK FALSE\n")
 STOP_TAIL = ("SPECIFICATION SpecStop\nINVARIANT TypeOK\nINVARIANT StopSound\nINVARIANT ReasonTrue\n"
              "INVARIANT NeverExceeds\nINVARIANT ExactlyDrawn\nINVARIANT AsCoded\nCHECK_DEADLOCK FALSE\n")
+COV_TAIL = ("SPECIFICATION SpecCov\nINVARIANT TypeOK\nINVARIANT CovImage\nINVARIANT CovWhole\nINVARIANT CovPSD\n"
+            "INVARIANT CovTrace\nCHECK_DEADLOCK FALSE\n")
 JAVA = ("-Xss512m",)        # the whole-sample sums are recursive over the history (depth up to 500)
 
 
@@ -80,9 +82,9 @@ def consts(**kw):
 
 
 def run_model(name, machine, emit=False, tlc_kw=None, **kw):
-    tail = STATS_TAIL if machine == "stats" else STOP_TAIL
+    tail = dict(stats=STATS_TAIL, stop=STOP_TAIL, cov=COV_TAIL)[machine]
     if emit:
-        tail += "INVARIANT %s\n" % ("EmitStats" if machine == "stats" else "EmitStop")
+        tail += "INVARIANT %s\n" % dict(stats="EmitStats", stop="EmitStop", cov="EmitCov")[machine]
     k = dict(java_opts=JAVA)
     k.update(tlc_kw or {})
     if emit:
@@ -746,6 +748,164 @@ def binding_selftest(stats_cases, stop_cases):
     return "corrupted mean / var / covar / convergence flag / prefix sum of emitted cases are rejected by the replay"
 
 
+# ---------------------------------------------------------------------------
+# spec growth beside C19 (never a violation): RunningCovariance / RunningCovarianceMatrix step by step
+# against the rational machine SpecCov of RunStats.tla
+
+COV_MAPS = [("k", Fraction(0), Fraction(1), float), ("k:int", Fraction(0), Fraction(1), int),
+            ("5+k/128", Fraction(5), Fraction(1, 128), float)]
+COV_CM, COV_CC = 8.0, 16.0      # tolerances: mean COV_CM*n*eps*A; C, covar COV_CC*n*eps*(A_i*D_j + A_j*D_i)/2 (D = range of the series)
+
+
+def cov_jobs(thorough):
+    """(label, emit, tlc_kw, expect, constants) of the SpecCov runs."""
+    P2 = {(-2, 3), (1, 1), (3, -1)}
+    P3 = {(-1, 2, 2), (2, -2, 0), (1, 1, 1)}
+    sq = tuples((-1, 0, 2), 2) if thorough else {(-1, 2), (0, 0), (2, -1), (2, 2), (-1, -1), (0, 2)}
+    return [
+        ("cov K=2 exhaustive", False, dict(workers=4), None,
+         dict(K=2, Samples=sq, MaxLen=5, MaxChunk=2)),
+        ("cov self-test oldmean", False, dict(workers=1), "CovImage|CovWhole|CovPSD",
+         dict(K=2, Samples=P2, MaxLen=3, MaxChunk=2, Variant="oldmean")),
+        ("emit cov K=2", True, {}, None, dict(K=2, Samples=P2, MaxLen=4 if not thorough else 5, MaxChunk=3, TrackCalls=True)),
+        ("emit cov K=3", True, {}, None, dict(K=3, Samples=P3, MaxLen=4 if not thorough else 5, MaxChunk=2, TrackCalls=True)),
+    ]
+
+
+def check_cov_case(c):
+    """Step the real RunningCovariance (every pair i <= j) and RunningCovarianceMatrix through the emitted calls;
+    after every call compare count, xmean, ymean, C, covar, sample_covar, covar_matrix, sample_covar_matrix with
+    the spec's rationals.  Returns (steps, comparisons, leads, worst ratio error/tolerance)."""
+    _, RC, RCM = real_classes()
+    K = c["k"]
+    leads, ncmp, steps, worst = [], 0, 0, 0.0
+    for name, off, sc, typ in COV_MAPS:
+        X = [tuple(typ(off + sc * k) for k in row) for row in c["xs"]]
+        A = [max(abs(float(r[i])) for r in X) for i in range(K)]
+        D = [max(float(r[i]) for r in X) - min(float(r[i]) for r in X) for i in range(K)]
+        rc = {(i, j): RC() for i in range(K) for j in range(i, K)}
+        rcm = RCM(K)
+        pos = 0
+
+        def cmp(what, got, want, tol, t):
+            nonlocal ncmp, worst
+            ncmp += 1
+            g = _num(got)
+            # values are O(1..100): the rational is rounded to a double once (<= half an ulp, far inside tol)
+            err = None if g is None else abs(g - float(want))
+            if err is not None and err / tol > worst:
+                worst = err / tol
+            if err is None or err > tol:
+                leads.append("%s after call %d of %r on xs=%r (map %s): got %r, the spec says %s (tolerance %.3g)"
+                             % (what, t + 1, c["calls"], c["xs"], name, got, float(want), tol))
+
+        try:
+            for t, L in enumerate(c["calls"]):
+                if L == 0:
+                    x = X[pos]
+                    pos += 1
+                    for (i, j), a in rc.items():
+                        a.update(x[i], x[j])
+                    rcm.update(*x)
+                else:
+                    chunk = X[pos:pos + L]
+                    pos += L
+                    cols = [[r[i] for r in chunk] for i in range(K)]
+                    for (i, j), a in rc.items():
+                        a.update_from_it(_wrap(cols[i], t % 4), _wrap(cols[j], t % 4))
+                    rcm.update_from_it(*[_wrap(col, t % 4, allow_gen=False) for col in cols])
+                steps += 1
+                snap = c["trace"][t]
+                n = snap[0][0]["n"]
+                m = rcm.covar_matrix
+                sm = rcm.sample_covar_matrix if n >= 2 else None
+                ncmp += 1
+                if rcm.count != n:
+                    leads.append("RunningCovarianceMatrix.count after call %d of %r: got %r, the spec says %d" % (t + 1, c["calls"], rcm.count, n))
+                for i in range(K):
+                    for j in range(K):
+                        e = snap[i][j]
+                        tolc = COV_CC * n * EPS * (A[i] * D[j] + A[j] * D[i]) / 2 + 1e-300
+                        want = sc * sc * _rat(e["covar"])
+                        cmp("RunningCovarianceMatrix.covar_matrix[%d,%d]" % (i, j), m[i, j], want, tolc, t)
+                        if sm is not None:
+                            cmp("RunningCovarianceMatrix.sample_covar_matrix[%d,%d]" % (i, j), sm[i, j], sc * sc * _rat(e["scov"]),
+                                tolc * n / (n - 1), t)
+                        if i > j:
+                            continue
+                        a = rc[i, j]
+                        ncmp += 1
+                        if a.count != n:
+                            leads.append("RunningCovariance.count after call %d of %r: got %r, the spec says %d" % (t + 1, c["calls"], a.count, n))
+                        cmp("RunningCovariance(%d,%d).xmean" % (i, j), a.xmean, off + sc * _rat(e["xm"]), COV_CM * n * EPS * A[i] + 1e-300, t)
+                        cmp("RunningCovariance(%d,%d).ymean" % (i, j), a.ymean, off + sc * _rat(e["ym"]), COV_CM * n * EPS * A[j] + 1e-300, t)
+                        cmp("RunningCovariance(%d,%d).C" % (i, j), a.C, sc * sc * _rat(e["c"]), tolc * n, t)
+                        cmp("RunningCovariance(%d,%d).covar" % (i, j), a.covar, want, tolc, t)
+                        cmp("RunningCovarianceMatrix.rcs[%d,%d].C" % (i, j), rcm.rcs[i, j].C, sc * sc * _rat(e["c"]), tolc * n, t)
+                        if n >= 2:
+                            cmp("RunningCovariance(%d,%d).sample_covar" % (i, j), a.sample_covar, sc * sc * _rat(e["scov"]),
+                                tolc * n / (n - 1), t)
+        except Exception as ex:  # noqa
+            leads.append("raised %s: %s on xs=%r calls=%r (map %s)" % (type(ex).__name__, ex, c["xs"], c["calls"], name))
+    return steps, ncmp, leads[:3], len(leads), worst
+
+
+def beyond_property(rep, ext_jobs, ext_results):
+    """RunningCovariance / RunningCovarianceMatrix against SpecCov.  Only notes and rep.extra - never a violation,
+    never an exception (the caller wraps this)."""
+    import copy
+    out = dict(what="RunningCovariance / RunningCovarianceMatrix (update, update_from_it, count, xmean, ymean, C, covar, "
+                    "sample_covar, covar_matrix, sample_covar_matrix) stepped call by call against the exact-rational machine "
+                    "SpecCov of RunStats.tla", tlc_runs=[])
+    cases, leads = [], []
+    for (label, emit, tkw, expect, kw), r in zip(ext_jobs, ext_results):
+        if isinstance(r, BaseException):
+            raise r
+        out["tlc_runs"].append(dict(name=label, **r.summary()))
+        if expect is not None:
+            out["selftest_buggy_variant_rejected_by"] = r.violated
+            if r.violated is None or r.violated not in expect.split("|"):
+                leads.append("spec self-test: Variant=oldmean is not rejected by the SpecCov invariants (got %r)" % (r.violated,))
+            continue
+        if r.violated:
+            leads.append("TLC: invariant %s of SpecCov violated in %s (model-level lead): %r" % (r.violated, label, r.trace[-1:]))
+        if emit:
+            cases.extend(r.cases)
+            # non-vacuity: both kinds of call occur in what was emitted
+            if not any(0 in c["calls"] for c in r.cases) or not any(max(c["calls"]) >= 2 for c in r.cases):
+                leads.append("vacuous: %s emitted no update / no update_from_it call" % label)
+    out["states"] = sum(t["distinct"] for t in out["tlc_runs"])
+    out["transitions"] = sum(t["generated"] for t in out["tlc_runs"])
+    out["emitted_behaviours"] = len(cases)
+    if cases:
+        # binding self-test: a corrupted snapshot must be noticed
+        d = copy.deepcopy([c for c in cases if c["k"] == 2 and c["n"] >= 3][0])
+        d["trace"][-1][0][1]["c"][0] += 1
+        d["trace"][-1][0][1]["covar"][0] += 1
+        out["corrupted_snapshot_rejected"] = check_cov_case(d)[3] > 0
+        if not out["corrupted_snapshot_rejected"]:
+            leads.append("binding self-test: a corrupted co-moment in an emitted snapshot was not noticed by the replay")
+    steps = ncmp = nlead = 0
+    worst = 0.0
+    for st_, nc, ld, nl, w in common.pmap(check_cov_case, cases):
+        steps += st_
+        ncmp += nc
+        nlead += nl
+        worst = max(worst, w)
+        leads.extend(ld)
+    out.update(replayed_behaviours=len(cases), maps=[m[0] for m in COV_MAPS], steps_compared=steps, comparisons=ncmp,
+               mismatches=nlead, worst_fraction_of_tolerance=float("%.3g" % worst),
+               tolerance="mean %g*n*eps*max|x|; C %g*n^2*eps*(A_i*D_j + A_j*D_i)/2, covar that / n" % (COV_CM, COV_CC))
+    rep.extra["beyond_property"] = out
+    for ld in leads[:8]:
+        rep.note("lead (outside C19): " + ld)
+    if len(leads) > 8:
+        rep.note("lead (outside C19): ... and %d more mismatch(es) of the same extension" % (len(leads) - 8))
+    rep.note("beyond C19 (spec growth): SpecCov - %d TLC states, %d emitted behaviours replayed call by call on RunningCovariance / "
+             "RunningCovarianceMatrix under %d maps, %d steps, %d comparisons, %d mismatch(es), worst error/tolerance %.3g"
+             % (out["states"], len(cases), len(COV_MAPS), steps, ncmp, nlead, worst))
+
+
 def _merge_worst(into, w):
     for k, v in w.items():
         into[k] = max(into.get(k, 0.0), v)
@@ -875,10 +1035,30 @@ def run(rep):
         name = "MC_RS_" + "".join(ch if ch.isalnum() else "_" for ch in label)
         return run_model(name, machine, emit=emit, tlc_kw=tkw, **kw)
 
+    # spec growth beside C19 (SpecCov): its TLC runs share the pool; whatever goes wrong in them is kept as a value
+    try:
+        ext_jobs = cov_jobs(thorough)
+    except Exception as e:  # noqa
+        ext_jobs = []
+        rep.note("beyond-property extension failed: %s: %s" % (type(e).__name__, e))
+
+    def _run_ext(j):
+        try:
+            label, emit, tkw, expect, kw = j
+            tkw = dict(tkw)
+            if "workers" in tkw:
+                tkw["workers"] = max(1, tkw["workers"] * common.NCPU // 16)
+            name = "MC_RS_" + "".join(ch if ch.isalnum() else "_" for ch in label)
+            return run_model(name, "cov", emit=emit, tlc_kw=tkw, **kw)
+        except Exception as e:  # noqa
+            return e
+
     import time
     t0 = time.time()
     with concurrent.futures.ThreadPoolExecutor(max_workers=max(2, min(6, common.NCPU // 2))) as pool:
+        ext_futures = [pool.submit(_run_ext, j) for j in ext_jobs]
         results = list(pool.map(_run, jobs))
+        ext_results = [f.result() for f in ext_futures]
     t1 = time.time()
 
     stats_cases, stop_cases = [], []
@@ -1018,6 +1198,13 @@ def run(rep):
         if w > MAX_FRACTION:
             rep.note("calibration: worst |error|/tolerance = %.3g exceeds the intended head-room %.2g (no violation)" % (w, MAX_FRACTION))
     one_shot_iterator_probe(rep)
+    t2 = time.time()
+    try:
+        if ext_jobs:
+            beyond_property(rep, ext_jobs, ext_results)
+    except Exception as e:  # noqa
+        rep.note("beyond-property extension failed: %s: %s" % (type(e).__name__, str(e)[:300]))
+    rep.extra["phase_wall_s"]["beyond_property_replay"] = round(time.time() - t2, 1)
 
 
 def one_shot_iterator_probe(rep):
